@@ -409,6 +409,7 @@ def run_check(prop, tier, seed):
 
 
 PAIR_TIERS = {"quick": 96, "thorough": 1500}
+HIST_TIERS = {"quick": 48, "thorough": 600}
 
 
 def _pair_init(repo):
@@ -436,14 +437,31 @@ def run_pair_check(prop, tier, seed):
     else:
         jobs = [(j, seed * 100000 + j // 4, 1 + j % 4) for j in range(n)]
         fn = pairs.pair_c15
+    hist_rep, hdocs, herrs = None, [], []
     with ctx.Pool(16, initializer=_pair_init, initargs=(REPO,), maxtasksperchild=1) as pool:
         res = pool.map(fn, jobs, chunksize=1)
+        if prop == "C15":
+            # process histories enumerated by TLC from spec/CiwHist.tla, replayed into the library
+            from harness import hist
+            try:
+                hist_rep, hs = hist.model_check(os.path.join(work, "hist"))
+            except RuntimeError as e:
+                log("MACHINERY-ERROR", str(e)[-1500:])
+                return 2
+            chosen = hist.sample(hs, HIST_TIERS[tier], seed)
+            hdocs, herrs = hist.make_pairs(pool, chosen, seed, hist.BOUNDS["Stages"], pid0=len(res))
+            hist_rep["replayed"] = len(chosen)
+            log("CiwHist: NonInterference holds on %d states; %d terminal histories, %d replayed -> %d pairs (%d errors)"
+                % (hist_rep["ideal"]["distinct"], hist_rep["histories"], len(chosen), len(hdocs), len(herrs)))
     docs, errs = [], []
     for d, e in res:
         if e:
             errs.append(e)
         else:
             docs.append(d)
+    docs += hdocs
+    errs += herrs
+    res = res + [None] * (len(hdocs) + len(herrs))
     if len(errs) > len(res) // 4:
         log("MACHINERY-ERROR pair generation failed:", errs[0][-1500:])
         return 2
@@ -468,6 +486,10 @@ def run_pair_check(prop, tier, seed):
                         "records": len(d["a"]["recs"]), "first_records": d["a"]["recs"][:2], "verdict": v}
                        for d, v in list(zip(docs, verdicts))[:2]],
            "known_findings_seen": sorted(set(f["id"] for f, _, _ in kf))}
+    if hist_rep:
+        cov["process_history_model"] = hist_rep
+        cov["states"] += hist_rep["ideal"]["distinct"] + hist_rep["export_states"]
+        cov["transitions"] += hist_rep["ideal"]["states"]
     ev = {"property_id": prop, "tier": tier, "seed": seed, "level": "model_checking", "coverage": cov,
           "assumptions": ["string equality of repr() is bit identity", "TLC evaluates CiwPair.tla correctly"],
           "violations": len(viol), "wall_s": round(time.time() - t0, 1)}
